@@ -981,4 +981,84 @@ Section TransparencyX.
     - unfold vary_missingX. destruct (compute hs r ov true) as [[x hs'] lg'].
       destruct (may_store_x true sfilter (rq_method r) x); split; reflexivity.
   Qed.
+
+  Lemma uncacheable_recomputed_history ops c hs now r0 :
+    TInv c -> AdmInv sfilter c -> Forall op_no_imsx ops -> no_imsx r0 ->
+    may_store_x true sfilter (rq_method (prime r0)) (cf (prime r0) (override r0) (sanitize_ok r0)) = false ->
+    let st := runC_state (c, hs) now ops in
+    snd (serveC (fst st) (snd st) r0) = snd (compute (snd (fst st)) (prime r0) (override r0) (sanitize_ok r0)) /\
+    snd (fst (fst (serveC (fst st) (snd st) r0))) = snd (fst (compute (snd (fst st)) (prime r0) (override r0) (sanitize_ok r0))).
+  Proof.
+    intros I A Hno Hims Hnot st.
+    pose proof (run_tinv ops (c, hs) now I Hno) as I2.
+    pose proof (run_adm hstate compute ims_on true fix_clear true sfilter parse_ims sanitize_ok prime override
+                        negotiate vary_tuple vary_header clear_alias ops (c, hs) now A) as A2.
+    fold st in I2, A2. destruct st as [[c2 hs2] t2]. cbn [fst snd] in *.
+    apply uncacheable_recomputed; assumption.
+  Qed.
 End TransparencyX.
+
+(** ================= statements over whole histories, from any admissible start state ================= *)
+Section Histories.
+  Variable hstate : Type.
+  Variable compute : hstate -> request -> option (bytes * option bytes) -> bool -> fatx * hstate * list bytes.
+  Variable ims_on : bool.
+  Variable fix_ovkey fix_clear fix_svary : bool.
+  Variable sfilter : N -> bool.
+  Variable parse_ims : bytes -> option Z.
+  Variable sanitize_ok : request -> bool.
+  Variable prime : request -> request.
+  Variable override : request -> option (bytes * option bytes).
+  Variable negotiate : request -> fatx -> option (N * bytes).
+  Variable vary_tuple : request -> tuple.
+  Variable vary_header : request -> fatx -> list (bytes * bytes).
+  Variable clear_alias : request -> option request.
+  Notation missR := (missX hstate compute true ims_on fix_ovkey fix_svary sfilter negotiate vary_tuple vary_header).
+  Notation runR_state := (runX_state hstate compute true ims_on true fix_ovkey fix_clear fix_svary sfilter parse_ims sanitize_ok
+                                     prime override negotiate vary_tuple vary_header clear_alias).
+
+  (** the miss arm stores exactly when admission says so, and nothing else changes in the cache *)
+  Lemma miss_store_x c1 hs now r ov ok :
+    let x := fst (fst (compute hs r ov ok)) in
+    fst (fst (fst (missR c1 hs now r ov ok))) =
+      if may_store_x true sfilter (rq_method r) x
+      then xc_insert (insert_key (if fix_ovkey then lookup_req r ov else r) (fx_fat x))
+                     {| ex_vars := [mkVar (vary_tuple r) x now]; ex_created := now; ex_life := lifetime_x x |} c1
+      else c1.
+  Proof.
+    unfold missX. destruct (compute hs r ov ok) as [[x hs'] lg]. cbn [fst].
+    destruct (may_store_x true sfilter (rq_method r) x); reflexivity.
+  Qed.
+
+  (** whatever a lookup finds at time [now] is within the entry's lifetime *)
+  Lemma never_stale_x lr c now k e c' :
+    xlookup lr c now = ((k, Some e), c') ->
+    match ex_life e with Some l => now - ex_created e <= l | None => True end.
+  Proof. intros L. destruct (xlookup_cases _ _ _ _ _ _ L) as (_ & _ & _ & _ & Fr). apply xfresh_spec. exact Fr. Qed.
+
+  (** every variant in the cache after any history was admitted when it was stored *)
+  Lemma stored_admitted_history ops c hs now :
+    AdmInv sfilter c ->
+    forall k e v, xc_find k (fst (fst (runR_state (c, hs) now ops))) = Some e -> In v (ex_vars e) ->
+      is_stream (v_resp v) = false /\ f_spref (fx_fat (v_resp v)) <> SP_NONE /\ sfilter (f_status (fx_fat (v_resp v))) = false /\
+      fx_len (v_resp v) < size_limit /\ kvarn_none (fx_fat (v_resp v)) = false.
+  Proof.
+    intros I k e v F Hin.
+    pose proof (run_adm hstate compute ims_on fix_ovkey fix_clear fix_svary sfilter parse_ims sanitize_ok prime override
+                        negotiate vary_tuple vary_header clear_alias ops (c, hs) now I k e v F Hin) as A.
+    apply may_store_x_iff in A. tauto.
+  Qed.
+
+  (** after any history, what a lookup finds and serves was stored at most its own lifetime ago *)
+  Lemma served_within_own_lifetime_history ops c hs now lr k e c1 tu v L :
+    LifeInv c now ->
+    let st := runR_state (c, hs) now ops in
+    xlookup lr (fst (fst st)) (snd st) = ((k, Some e), c1) -> xv_find tu (ex_vars e) = Some v ->
+    lifetime_x (v_resp v) = Some L -> v_stored v <= snd st /\ snd st - v_stored v <= L.
+  Proof.
+    intros I st Lk V HL.
+    destruct (run_life hstate compute ims_on fix_ovkey fix_clear fix_svary sfilter parse_ims sanitize_ok prime override
+                       negotiate vary_tuple vary_header clear_alias ops (c, hs) now I) as [I2 _].
+    eapply hit_within_own_lifetime; eassumption.
+  Qed.
+End Histories.
